@@ -108,9 +108,16 @@ def robust_format(exe, srcs, timeout=40):
     return res
 
 
-def fmt2(exe, srcs):
+TRACES = {}       # source -> phases trace of its first formatting (filled by fmt2)
+
+
+def fmt2(exe, srcs, keep_traces=False):
     """-> [(f1, f2, detail)] ; f1/f2 None when the formatter panicked, hung or died."""
     r1 = robust_format(exe, srcs)
+    if keep_traces:
+        for s, r in zip(srcs, r1):
+            if r.get("phases"):
+                TRACES[s] = r["phases"]
     f1 = [r.get("output") for r in r1]
     idx = [i for i, f in enumerate(f1) if f is not None]
     r2 = robust_format(exe, [f1[i] for i in idx])
@@ -124,6 +131,82 @@ def fmt2(exe, srcs):
         if f1[i] is None:
             det[i] = r.get("panic") or r.get("crashed") or json.dumps(r)[:200]
     return list(zip(f1, f2, det))
+
+
+def detect_phase8_version(repo):
+    """Which code does normalize_token_spacing of this tree have? -> "8" (gaps must be whitespace only),
+    "8orig" (gaps without '/' and '\\n': before fix-5) or None (shape not recognised)."""
+    import os
+    import re
+    try:
+        src = open(os.path.join(repo, "src", "format.rs")).read()
+    except OSError:
+        return None
+    m = re.search(r"fn normalize_token_spacing\b.*?\n}\n", src, re.S)
+    if not m:
+        return None
+    body = m.group(0)
+    if "gap.contains('\\n') || !gap.chars().all(char::is_whitespace)" in body:
+        return "8"
+    if "gap.contains('/') || gap.contains('\\n')" in body:
+        return "8orig"
+    return None
+
+
+def phase_runs(trace):
+    """[(model phase op, input text, real output text, toplevel lines)] for phases 6..9 of one formatter trace."""
+    texts, tops = {}, []
+    for p in trace:
+        n = p["phase"]
+        if n.endswith(":out"):
+            texts[n[:-4]] = p["text"]
+        elif n in ("5-line-edits", "6-blank-lines", "9-final-newline"):
+            texts[n] = p["text"]
+            if n == "6-blank-lines":
+                tops = p["edits"] or []
+    order = [("5-line-edits", None), ("6-blank-lines", "6"), ("7-type-annotations", "7"), ("8-token-spacing", "8"),
+             ("9-final-newline", "9")]
+    runs = []
+    for (prev, _), (cur, op) in zip(order, order[1:]):
+        if prev in texts and cur in texts:
+            runs.append((op, texts[prev], texts[cur], tops if op == "6" else []))
+    return runs
+
+
+def phase_correspondence(ctx, mdl, traces, p8):
+    """Run the extracted models of phases 6-9 on the real phase inputs; a different output is a broken tie."""
+    reqs, meta, seen = [], [], set()
+    for src, tr in traces:
+        for (op, a, b, tops) in phase_runs(tr):
+            if "\r" in a:
+                ctx.stat("phase runs on CR input (not compared: see crlf-input finding)")
+                continue
+            key = (op, a, tuple(tops))
+            if key in seen:
+                continue
+            seen.add(key)
+            mop = p8 if op == "8" else op
+            reqs.append("phase\t%s\t%s\t%s" % (mop, common.hexs(a), ",".join(str(t) for t in tops) or "-"))
+            meta.append((op, a, b, tops, src))
+    ctx.log("model vs formatter on %d phase runs" % len(reqs))
+    rc, res, err = common.run_lines(mdl, [], reqs, shards=16, timeout=900)
+    if len(res) != len(reqs):
+        ctx.broken("model-driver:phase", "asked %d, got %d answers: %s" % (len(reqs), len(res), err[-300:]))
+        return
+    for (op, a, b, tops, src), line in zip(meta, res):
+        ctx.stat("phase %s: model output compared with the formatter's" % op)
+        try:
+            out = common.unhex(line.strip()).decode("utf-8", "replace")
+        except ValueError:
+            ctx.broken("model-driver:phase", "bad answer %r" % line[:200])
+            return
+        if out != b:
+            ctx.broken("correspondence:phase-%s" % op,
+                       "phase %s on %r (toplevel lines %s): model %r, formatter %r; input of the run: %r"
+                       % (op, a[:300], tops, out[:300], b[:300], src[:200]))
+            return
+        if a != b:
+            ctx.stat("phase %s: runs that changed the text" % op)
 
 
 def classify(src, f1, f2, det):
@@ -184,7 +267,7 @@ def run(ctx):
     inputs = gen_all(ctx, exe, 2500 if ctx.thorough else 500)
     ctx.log("%d inputs" % len(inputs))
     srcs = [s for (_, s) in inputs]
-    res = fmt2(exe, srcs)
+    res = fmt2(exe, srcs, keep_traces=True)
     reported = {}
     crashed = []
     for (kind, s), (f1, f2, det) in zip(inputs, res):
@@ -210,6 +293,18 @@ def run(ctx):
                       {"input": small, "observed": {"format_once": f1, "format_twice": f2, "detail": det},
                        "expected": "format(format(x)) == format(x)", "unshrunk_input": s,
                        "cli_command": "garden format f > g; garden format g  # differs; garden format --check g"})
+
+    # ---- the modelled phases 6-9 against the real phases (per-phase trace of the hook) ----------------
+    mdl = ctx.model("editalgebra")
+    p8 = detect_phase8_version(common.REPO)
+    if p8 is None:
+        ctx.broken("translator:normalize_token_spacing", "the gap test of normalize_token_spacing has neither known shape")
+    elif p8 == "8orig":
+        ctx.broken("phase8-version", "this tree has normalize_token_spacing from before fix-5 (gaps with unrecognised "
+                   "characters are rewritten): the idempotence theorems model the fixed code "
+                   "(FormatPhasesProps.phase8_orig_not_idempotent is the witness against the old one)")
+    if mdl and p8:
+        phase_correspondence(ctx, mdl, [(s, TRACES[s]) for s in srcs if s in TRACES], p8)
 
     # ---- the CLI on the outputs: --check accepts, format reproduces --------------------------------
     outs = [(s, f1) for (_, s), (f1, f2, det) in zip(inputs, res) if f1 is not None and f1 == f2]
